@@ -34,7 +34,7 @@ fn corpus_case(r: &mut Prng) -> Case {
 pub const META_C09: Meta = Meta {
     id: "C09",
     level: "exploration",
-    rule: "Each case is a batch of 24 strings from four sources: (1) token soup - 1-60 tokens from the full token alphabet (every keyword incl. program/init/memory/def/call, every operator incl. ! and ~ in infix position, C X Z, radix and overflowing literals, EOL/CRLF/tab/comment, non-ASCII such as é, emoji, U+0085, combining marks, $, NUL) with and without a valid header in front; (2) mutated valid programs - printer output of generated programs under token deletion / duplication / transposition / replacement, truncation at a random char boundary, an extra C appended past the last column, a reserved keyword inserted at a statement start; (3) the same with LF -> CRLF; (4) shard 0: structured edge cases (empty, blank only, header only +- newline, 1 MB line, 10^5 blank lines, 10^4 columns, 64-deep nesting) and truncation of 40 programs at EVERY char boundary. Oracle per string, under catch_unwind: from_str returns (no panic); on Err every span in ParseError.at satisfies start <= end <= len with both ends on char boundaries; rendering the error with miette's graphical handler and the source attached does not panic and is non-empty. Non-trivial = string has a valid header line (so the body parser is reached) and is not byte-identical to an earlier one.",
+    rule: "Each case is a batch of 24 strings from four sources: (1) token soup - 1-60 tokens from the full token alphabet (every keyword incl. program/init/memory/def/call, every operator incl. ! and ~ in infix position, C X Z, radix and overflowing literals, EOL/CRLF/tab/comment, non-ASCII such as é, emoji, U+0085, combining marks, $, NUL) with and without a valid header in front; (2) mutated valid programs - printer output of generated programs under token deletion / duplication / transposition / replacement, truncation at a random char boundary, an extra C appended past the last column, a reserved keyword inserted at a statement start, and (1.5% of the cases) programs with 65-300 header columns whose rows hold C / X / Z / expressions / bits() at arbitrary columns, the last ones included; (3) the same with LF -> CRLF; (4) shard 0: structured edge cases (empty, blank only, header only +- newline, 1 MB line, 10^5 blank lines, 10^4 columns, 64-deep nesting) and truncation of 40 programs at EVERY char boundary. Oracle per string, under catch_unwind: from_str returns (no panic); on Err every span in ParseError.at satisfies start <= end <= len with both ends on char boundaries; rendering the error with miette's graphical handler and the source attached does not panic and is non-empty. Non-trivial = string has a valid header line (so the body parser is reached) and is not byte-identical to an earlier one.",
     assumptions: &["nesting depth is bounded (<= 64) to stay clear of native stack exhaustion, as the property's quantifier says"],
     quick_cases: 60000,
     thorough_cases: 1200000,
@@ -183,9 +183,46 @@ fn c09_check(text: &str, case_seed: u64, variant: &str, acc: &mut Acc) -> bool {
     true
 }
 
+/// A program with a very wide header (65-300 columns) whose rows hold every kind of entry at
+/// arbitrary columns - valid or not, it has to come back from `from_str`.
+fn wide_program(r: &mut Prng) -> String {
+    let n = *r.pick(&[65usize, 66, 70, 127, 128, 129, 130, 200, 257, 300]);
+    let mut t: String = (0..n).map(|i| format!("s{i}")).collect::<Vec<_>>().join(" ");
+    t.push('\n');
+    for _ in 0..1 + r.below(3) {
+        let hot = r.below(n);
+        let hot2 = n - 1 - r.below(n.min(4));
+        let row: Vec<&str> = (0..n)
+            .map(|c| {
+                if c == hot || c == hot2 || r.chance(30, 1000) {
+                    *r.pick(&["C", "X", "Z", "c", "x", "z", "(1+1)", "0x1F", "7"])
+                } else {
+                    *r.pick(&["0", "1", "0", "1", "X"])
+                }
+            })
+            .collect();
+        if r.chance(1, 4) {
+            t.push_str("repeat(2) ");
+        }
+        t.push_str(&row.join(" "));
+        t.push('\n');
+    }
+    if r.chance(1, 4) {
+        t.push_str(&format!("bits({}, 5) {}\n", n.min(64), vec!["C"; n - n.min(64)].join(" ")));
+    }
+    t
+}
+
 pub fn c09(case_seed: u64, acc: &mut Acc) {
     let mut r = Prng::new(case_seed);
     acc.cases += 1;
+    if r.chance(15, 1000) {
+        let s = wide_program(&mut r);
+        acc.event("wide_header_programs_65_to_300_columns", 1);
+        if !c09_check(&s, case_seed, "wide", acc) {
+            return;
+        }
+    }
     let base = {
         let c = corpus_case(&mut r);
         pp::print(&c.program, &c.layout_opts).text
@@ -293,6 +330,9 @@ pub fn c09_exhaustive(tier: &str, acc: &mut Acc) -> Value {
         format!("{}\n{}\n", (0..10_000).map(|i| format!("s{i}")).collect::<Vec<_>>().join(" "), "1 ".repeat(10_000)),
         format!("A\n({}1{})\n", "(".repeat(64), ")".repeat(64)),
         format!("A\n({}1)\n", "-".repeat(64)),
+        format!("{}\n{}\n", (0..300).map(|i| format!("s{i}")).collect::<Vec<_>>().join(" "), vec!["C"; 300].join(" ")),
+        format!("{}\n{}\n", (0..300).map(|i| format!("s{i}")).collect::<Vec<_>>().join(" "), vec!["X"; 300].join(" ")),
+        format!("{}\n{}\n", (0..300).map(|i| format!("s{i}")).collect::<Vec<_>>().join(" "), vec!["Z"; 300].join(" ")),
         format!("A\n{}1\n{}", "loop(i,1)\n".repeat(64), "end loop\n".repeat(64)),
         format!("A\n{}", "loop(i,1)\n".repeat(64)),
     ];
@@ -352,7 +392,7 @@ pub fn c09_exhaustive(tier: &str, acc: &mut Acc) -> Value {
 pub const META_C12: Meta = Meta {
     id: "C12",
     level: "exploration",
-    rule: "Each case takes one generated valid program (accepted by the crate in the same run, so a rejection is due to the edit) and applies every applicable instance of 14 single grammar-breaking edit operators, working on token spans found by the harness tokenizer: M1 delete a block's `end loop`/`end while`; M2 swap `end loop`<->`end while`, bare `end`, `end repeat`; M3 insert `end loop`/`end while` at top level; M4 delete / append one row entry, bits(k+-1,..); M5 delete one `;` `)` `(` `,`; M6 unknown function name, one argument more / fewer; M7 replace a literal by 2^63 / 2^64 in decimal, hex, binary, octal; M8 bits(k,..) with k in {65,100,255,256,10^6} and k+256, k+512, k+2^16, k+2^32; M9 duplicate a header name, duplicate a declare; M10 header only, no line break; M11 truncate at every token boundary at block depth > 0 or strictly inside a statement; M12 more tokens on the same line after a complete statement (`let a = 1; 1 0`, `end loop 1`), `end loopx`; M13 letters glued to a number; M14 a comma where none belongs - dangling before the closing parenthesis, leading after the opening one, doubled, or an empty argument list - in calls of random / ite / signExt and in bits( loop( repeat( while( - each in three endings {as is, trailing newline added, trailing newlines removed} and in LF and CRLF. A mutant counts only if it is invalid by construction AND the independent recogniser refparse rejects it (so a mistake in either cannot alarm alone); then from_str must return Err. Ok = violation; a panic is C09's business and only counted. Non-trivial = a confirmed-invalid mutant of an accepted parent, distinct by text.",
+    rule: "Each case takes one generated valid program (accepted by the crate in the same run, so a rejection is due to the edit) and applies every applicable instance of 16 single grammar-breaking edit operators, working on token spans found by the harness tokenizer: M1 delete a block's `end loop`/`end while`; M2 swap `end loop`<->`end while`, bare `end`, `end repeat`; M3 insert `end loop`/`end while` at top level; M4 delete / append one row entry, bits(k+-1,..); M5 delete one `;` `)` `(` `,`; M6 unknown function name, one argument more / fewer; M7 replace a literal by 2^63 / 2^64 in decimal, hex, binary, octal; M8 bits(k,..) with k in {65,100,255,256,10^6} and k+256, k+512, k+2^16, k+2^32; M9 duplicate a header name, duplicate a declare; M10 header only, no line break; M11 truncate at every token boundary at block depth > 0 or strictly inside a statement; M12 more tokens on the same line after a complete statement (`let a = 1; 1 0`, `end loop 1`), `end loopx`; M13 letters glued to a number; M14 a comma where none belongs - dangling before the closing parenthesis, leading after the opening one, doubled, or an empty argument list - in calls of random / ite / signExt and in bits( loop( repeat( while(; M15 one argument too many / too few in bits( loop( repeat( while(; M16 damaged let / declare heads (no name, a number as name, two names, no `=`, `= =`) - each in three endings {as is, trailing newline added, trailing newlines removed} and in LF and CRLF. A mutant counts only if it is invalid by construction AND the independent recogniser refparse rejects it (so a mistake in either cannot alarm alone); then from_str must return Err. Ok = violation; a panic is C09's business and only counted. Non-trivial = a confirmed-invalid mutant of an accepted parent, distinct by text.",
     assumptions: &["refparse.rs (recogniser written from the grammar as stated in C08/C12) confirms invalidity", "harness tokenizer reflex.rs locates tokens"],
     quick_cases: 8000,
     thorough_cases: 200000,
@@ -407,6 +447,16 @@ fn mutants(text: &str, r: &mut Prng) -> Vec<Mutant> {
                 // M12: something more on the same line after a complete statement
                 push("M12-trailing-tokens", splice(kw.end, kw.end, *r.pick(&[" 1", " X", " end", " loop", " ;"])), &mut out);
             }
+            K::Kw if matches!(w, "let" | "declare") && i + 2 < toks.len() && toks[i + 1].k == K::Ident => {
+                // M16: damaged let / declare heads
+                let name = &toks[i + 1];
+                let eq = &toks[i + 2];
+                push("M16-let-without-name", splice(name.start, name.end, ""), &mut out);
+                push("M16-let-number-as-name", splice(name.start, name.end, "7"), &mut out);
+                push("M16-let-without-equals", splice(eq.start, eq.end, " "), &mut out);
+                push("M16-let-double-equals-sign", splice(eq.end, eq.end, " ="), &mut out);
+                push("M16-let-two-names", splice(name.end, name.end, " zz"), &mut out);
+            }
             K::Semi => {
                 push("M5-delete-semi", splice(t.start, t.end, ""), &mut out);
                 // M12: a second statement / a row on the same line
@@ -445,6 +495,23 @@ fn mutants(text: &str, r: &mut Prng) -> Vec<Mutant> {
                 }
                 if let Some(j) = close {
                     let c = &toks[j];
+                    if matches!(w, "bits" | "loop" | "repeat" | "while") {
+                        // M15: one argument too many / too few for the keyword forms
+                        push("M15-keyword-extra-argument", splice(c.start, c.start, *r.pick(&[",1", ", i", ",(2)"])), &mut out);
+                        let mut d2 = 0i32;
+                        let mut last_comma = None;
+                        for u in &toks[i + 1..j] {
+                            match u.k {
+                                K::LParen => d2 += 1,
+                                K::RParen => d2 -= 1,
+                                K::Comma if d2 == 1 => last_comma = Some(u.start),
+                                _ => {}
+                            }
+                        }
+                        if let Some(at) = last_comma {
+                            push("M15-keyword-missing-argument", splice(at, c.start, ""), &mut out);
+                        }
+                    }
                     push("M14-dangling-comma", splice(c.start, c.start, *r.pick(&[",", " ,", ", "])), &mut out);
                     push("M14-leading-comma", splice(toks[i + 1].end, toks[i + 1].end, ","), &mut out);
                     push("M14-empty-argument-list", splice(toks[i + 1].end, c.start, ""), &mut out);
@@ -641,7 +708,7 @@ pub fn c12(case_seed: u64, acc: &mut Acc) {
     }
     if ok {
         acc.held += 1;
-        acc.sample(|| json!({"parent": base, "operators": "M1..M14, each x3 endings x LF/CRLF"}));
+        acc.sample(|| json!({"parent": base, "operators": "M1..M16, each x3 endings x LF/CRLF"}));
     }
 }
 
